@@ -267,6 +267,7 @@ func reflectionGuards(r *core.Run) {
 	})
 	oneofWrapperAllFields(r)
 	registeredRefsRolledBack(r)
+	uniquePropertyNames(r)
 	_ = fmt.Sprintf
 }
 
